@@ -33,6 +33,8 @@ use std::sync::atomic::AtomicU8;
 use std::sync::atomic::Ordering::Relaxed;
 use std::sync::Arc;
 
+use crate::benign_error::is_absent_file_error;
+use crate::cache_dir::validate_file_name;
 use crate::cache_dir::CacheDir;
 use crate::multiplicative_hash::MultiplicativeHash;
 use crate::trigger::PeriodicTrigger;
@@ -109,13 +111,20 @@ impl Shard {
         }
     }
 
-    /// Returns whether the file `name` exists in this shard.
-    fn file_exists(&mut self, name: &str) -> bool {
+    /// Returns whether the file `name` exists in this shard.  Only a
+    /// missing file counts as absent: any other failure is reported,
+    /// otherwise we could write a second copy of `name` in the other
+    /// shard and still report success.
+    fn file_exists(&mut self, name: &str) -> Result<bool> {
         self.shard_dir.push(name);
         let result = std::fs::metadata(&self.shard_dir);
         self.shard_dir.pop();
 
-        result.is_ok()
+        match result {
+            Ok(_) => Ok(true),
+            Err(e) if is_absent_file_error(&e) => Ok(false),
+            Err(e) => Err(e),
+        }
     }
 }
 
@@ -317,12 +326,15 @@ impl Cache {
     /// Always consumes the file at `value` on success; may consume it
     /// on error.
     pub fn set(&self, key: Key, value: &Path) -> Result<()> {
+        // Reject invalid names before probing the filesystem with them.
+        validate_file_name(key.name)?;
+
         let (h1, h2) = self.sort_by_load(self.shard_ids(key));
         let mut shard = self.shard(h2);
 
         // If the file does not already exist in the secondary shard,
         // use the primary.
-        if !shard.file_exists(key.name) {
+        if !shard.file_exists(key.name)? {
             shard = shard.replace_shard(h1);
         }
 
@@ -354,12 +366,15 @@ impl Cache {
     /// Always consumes the file at `value` on success; may consume it
     /// on error.
     pub fn put(&self, key: Key, value: &Path) -> Result<()> {
+        // Reject invalid names before probing the filesystem with them.
+        validate_file_name(key.name)?;
+
         let (h1, h2) = self.sort_by_load(self.shard_ids(key));
         let mut shard = self.shard(h2);
 
         // If the file does not already exist in the secondary shard,
         // use the primary.
-        if !shard.file_exists(key.name) {
+        if !shard.file_exists(key.name)? {
             shard = shard.replace_shard(h1);
         }
 
